@@ -540,6 +540,7 @@ type Wrap struct {
 	OrigName string
 	Version  int
 	Copy     Node // set when the substitute is a same-type copy (then this record only describes it)
+	Zero     any  // set when the substitute is a zero-size object (*ZWrap1 / *ZWrap2)
 }
 
 func (w *Wrap) A() {}
